@@ -6,7 +6,7 @@ import json, os, re, shutil, sys
 V = os.path.dirname(os.path.dirname(os.path.abspath(__file__)))
 pid = sys.argv[1]
 prefix = sys.argv[2] if len(sys.argv) > 2 else "mut2"
-tag = {"mut": "m", "mut2": "n", "mut3": "q"}.get(prefix, prefix)
+tag = {"mut": "m", "mut2": "n", "mut3": "q", "mut4": "r"}.get(prefix, prefix)
 root = "/tmp/%s_%s_out" % (prefix, pid)
 for k in sorted(os.listdir(root)):
     src = os.path.join(root, k)
